@@ -105,7 +105,7 @@ def run(tier, seed):
         import random as _random
         trng = _random.Random(seed)
         tl = [{"kind": "Sync"}, {"kind": "Control", "action": 4}, {"kind": "Control", "action": 2}, {"kind": "Control", "action": 1}, {"kind": "FontMap"},
-              {"kind": "ErrInfo"}, {"kind": "UnknownData", "t2": 38}, {"kind": "DeactivateAll"}, {"kind": "DemandActive", "shareId": [7, 7, 7, 7]}]
+              {"kind": "ErrInfo"}, {"kind": "UnknownData", "t2": 38}, {"kind": "UnknownControl", "ptype": 26}, {"kind": "UnknownControl"}, {"kind": "DeactivateAll"}, {"kind": "DemandActive", "shareId": [7, 7, 7, 7]}]
         for k in range(60 if tier == "quick" else 1500):
             n = trng.choice([2, 2, 3, 4])
             items = [dict(trng.choice(tl)) for _ in range(n)]
@@ -115,7 +115,12 @@ def run(tier, seed):
             for i, it in enumerate(items):           # class: no demand-active after a deactivate-all of the same train
                 if it["kind"] == "DeactivateAll": seen_deact = True
                 elif it["kind"] == "DemandActive" and seen_deact: items[i] = {"kind": "Sync"}
-            after = [dict(trng.choice(tl[:8])) for _ in range(trng.randint(0, 2))]
+            # ... and no deactivate-all behind a PDU of an unknown type (the implementation drops the rest of the train there)
+            seen_unk = False
+            for i, it in enumerate(items):
+                if it["kind"] == "UnknownControl": seen_unk = True
+                elif it["kind"] == "DeactivateAll" and seen_unk: items[i] = {"kind": "ErrInfo"}
+            after = [dict(trng.choice(tl[:10])) for _ in range(trng.randint(0, 2))]
             plans.append({"id": "train%d" % k, "steps": with_inputs(HAPPY[:5] + [{"train": items}] + after + HAPPY[:5], k)})
         pp = os.path.join(wd, "plans.ndjson")
         activation.write_plans(pp, plans)
